@@ -1,12 +1,14 @@
 package props
 
 import (
+	"fmt"
 	"testing"
 
 	"pgregory.net/rapid"
 
 	"go.etcd.io/bbolt/verifh/drv"
 	"go.etcd.io/bbolt/verifh/gen"
+	"go.etcd.io/bbolt/verifh/refdec"
 )
 
 const c07Rule = "C04-style histories weighted towards bucket deletion (nested, on clean and modified parents), MoveBucket, rollbacks, commits failing on a size limit, reopenings with re-drawn options, all page sizes; after every commit, failed commit and reopen the independent decoder's page accounting must be anomaly-free (every page below the high-water mark exactly one of meta / freelist / reachable once / listed free once; key order; element bounds; file length) and Stats, Tx.Check, Tx.Page and the in-memory free list must agree with it. Non-trivial = some commit left pending (freed) pages after a bucket deletion, move or bulk delete, in a database that has >=3 tree levels or overflow pages. Distinct = SHA-256 of the op log."
@@ -93,3 +95,118 @@ func replayHistoryC07(t *testing.T, d replayDoc) *drv.Violation {
 }
 
 func init() { replayFuncs["C07"] = replayHistoryC07 }
+
+// ---------------------------------------------------------------------------------------------
+// directed: free lists whose serialised size walks across page boundaries
+
+const c07BoundaryRule = "directed walk of the free-list size across page boundaries: a database with several hundred single-leaf keys loses a generated prefix of them in one commit (free list of 1-6 pages), then a reader pins every freed page (so that pending ids accumulate and the new freelist page is allocated at the high-water mark) - or, in other cases, no reader is open (freelist taken from free pages) - and 150-400 small commits (1-3 single-page overwrites, 0-2 key deletions each) let free+pending grow by a few ids per commit through every residue of (16+8n) mod pageSize; the accounting oracle (independent decoder: count fits the freelist pages, ids sorted, every page accounted once; Stats, Tx.Check, Tx.Page, in-memory list) runs after every commit, then after reopening with the other backend and with freelist sync off (scan = persisted). Non-trivial = some commit had its free-list size within 48 bytes below or 24 bytes above a page boundary with a freelist of >= 2 pages. Distinct = SHA-256 of the op log."
+
+func TestC07FreelistBoundary(t *testing.T) {
+	col := newCollector(getenv("VERIF_PROP", "C07"), c07BoundaryRule)
+	defer col.Flush()
+	rapid.Check(t, func(rt *rapid.T) {
+		e := drv.NewEnv("c07b")
+		defer e.Cleanup()
+		e.SkipDumpAfter = true
+		prop := getenv("VERIF_PROP", "C07")
+		fail := func(v *drv.Violation) {
+			failCase(rt, replayDoc{Property: prop, Kind: "boundary-history", Ops: e.Log}, v)
+		}
+		do := func(op drv.Op) {
+			if v := e.Apply(op); v != nil {
+				fail(v)
+			}
+		}
+		ps := rapid.SampledFrom([]int{1024, 1024, 2048}).Draw(rt, "pagesize")
+		backend := rapid.SampledFrom([]string{"array", "hashmap"}).Draw(rt, "freelist")
+		near, hits := 0, map[int]int{}
+		c07Install(e)
+		inner := e.AfterCommit
+		ncommit := 0
+		e.AfterCommit = func(e *drv.Env, txid int) *drv.Violation {
+			free, pending, all := memFreelist(e)
+			n := len(free) + len(pending)
+			size := 16 + 8*n
+			ncommit++
+			if r := size % ps; size > ps && (r >= ps-48 || r < 24) {
+				near++
+				hits[(r+48)%ps/8]++
+				return inner(e, txid) // the complete accounting oracle
+			}
+			if ncommit%16 == 0 {
+				return inner(e, txid)
+			}
+			// elsewhere the structural part only: clean decode, and the persisted list is the in-memory list
+			_, a, v := decodeFile(e)
+			if v != nil {
+				return v
+			}
+			if !a.Clean() {
+				return drv.Violf("after commit: page accounting by the independent decoder: %v", a.Anomalies)
+			}
+			if d := refdec.EqualSets(all, a.FreeIDs); d != "" {
+				return drv.Violf("after commit: in-memory free+pending ids differ from the persisted freelist page (memory vs file): %s", d)
+			}
+			return nil
+		}
+		do(drv.Op{Op: drv.OpOpen, Opts: &drv.OpenOpts{PageSize: ps, Freelist: backend, InitialMmapSize: 32 << 20, AllocSize: 64 << 10}})
+		d, pre := drv.Lit("d"), drv.Lit("k")
+		dpath := []drv.B{d}
+		total := rapid.IntRange(250, 700).Draw(rt, "keys")
+		val := drv.B{S: "v", N: ps * 55 / 100}
+		do(drv.Op{Op: drv.OpBeginRW})
+		do(drv.Op{Op: drv.OpCreate, Key: &d})
+		do(drv.Op{Op: drv.OpBulkPut, Path: dpath, Key: &pre, From: 0, To: total, Val: &val})
+		const small = 6
+		sval := drv.B{S: "s", N: ps / 2}
+		sk := drv.Lit("x")
+		for i := 0; i < small; i++ {
+			b := drv.Lit(fmt.Sprintf("t%d", i))
+			do(drv.Op{Op: drv.OpCreate, Key: &b})
+			do(drv.Op{Op: drv.OpPut, Path: []drv.B{b}, Key: &sk, Val: &sval})
+		}
+		do(drv.Op{Op: drv.OpCommit})
+		gone := rapid.IntRange(100, total-60).Draw(rt, "deleted")
+		do(drv.Op{Op: drv.OpBeginRW})
+		do(drv.Op{Op: drv.OpBulkDel, Path: dpath, Key: &pre, From: 0, To: gone})
+		do(drv.Op{Op: drv.OpCommit})
+		pinned := rapid.IntRange(0, 3).Draw(rt, "pinned") > 0
+		if pinned {
+			do(drv.Op{Op: drv.OpBeginRO, Tx: 1})
+		}
+		next := gone
+		for i, n := 0, rapid.IntRange(150, 400).Draw(rt, "commits"); i < n; i++ {
+			do(drv.Op{Op: drv.OpBeginRW})
+			m := rapid.IntRange(1, 3).Draw(rt, "overwrites")
+			first := rapid.IntRange(0, small-1).Draw(rt, "firstsmall")
+			for j := 0; j < m; j++ {
+				b := drv.Lit(fmt.Sprintf("t%d", (first+j)%small))
+				v := drv.B{S: string(rune('a' + i%26)), N: ps / 2}
+				do(drv.Op{Op: drv.OpPut, Path: []drv.B{b}, Key: &sk, Val: &v})
+			}
+			if del := rapid.IntRange(0, 2).Draw(rt, "dels"); del > 0 && next+del < total-2 {
+				do(drv.Op{Op: drv.OpBulkDel, Path: dpath, Key: &pre, From: next, To: next + del})
+				next += del
+			}
+			do(drv.Op{Op: drv.OpCommit})
+		}
+		if pinned {
+			do(drv.Op{Op: drv.OpCloseRO, Tx: 1})
+		}
+		do(drv.Op{Op: drv.OpProbe})
+		other := map[string]string{"array": "hashmap", "hashmap": "array"}[backend]
+		do(drv.Op{Op: drv.OpReopen, Opts: &drv.OpenOpts{Freelist: other}})
+		do(drv.Op{Op: drv.OpReopen, Opts: &drv.OpenOpts{Freelist: backend, NoFreelistSync: true}})
+		do(drv.Op{Op: drv.OpReopen, Opts: &drv.OpenOpts{Freelist: other}})
+		labels := map[string]int{"pagesize-" + fmt.Sprint(ps): 1, "backend-" + backend: 1}
+		if pinned {
+			labels["reader-pins-freed-pages"] = 1
+		}
+		for off, c := range hits {
+			labels[fmt.Sprintf("size-offset-%+d-bytes-from-boundary", off*8-48)] = c
+		}
+		col.Add(e.Log, near > 0, labels)
+		col.Count("commits_near_a_page_boundary", near)
+		col.Count("accounting_checks", e.Labels["commit"]+e.Labels["open"])
+	})
+}
